@@ -111,10 +111,12 @@ func (h *Hub) RegisterRemoteSKI(ski string) {
 	}
 
 	// if the hub has started, trigger a search and connection attempt
-	conn := h.connectionForSKI(ski)
-
+	// trust first, then look for a connection: one that comes in after the lookup finds the
+	// service trusted, one that came in before is found and approved
 	service := h.ServiceForSKI(ski)
 	service.SetTrusted(true)
+
+	conn := h.connectionForSKI(ski)
 
 	// remotely initiated?
 	if conn != nil {
